@@ -46,3 +46,11 @@ Fixpoint leaves {A} (t : bintree A) : list A :=
   match t with Leaf a => [a] | Node l r => leaves l ++ leaves r end.
 Fixpoint eval_tree (t : bintree cov) : cov :=
   match t with Leaf a => a | Node l r => merge (eval_tree l) (eval_tree r) end.
+
+(* unbounded sum of the counts given for one line; None iff nobody lists the line *)
+Fixpoint osum (l : list (option N)) : option N :=
+  match l with
+  | [] => None
+  | None :: l => osum l
+  | Some x :: l => Some (x + default 0 (osum l))
+  end.
